@@ -115,6 +115,9 @@ func vfDropSpawned()      {}
 func vfChanUnbounded()    {}
 func vfGoInline(on bool)  {}
 
+// vfClockHook: under the executor f runs once at the next time.Now() of the code under test (no native effect).
+func vfClockHook(f func()) {}
+
 // --- file system: the executor has an in-memory model; natively a temporary directory is used ---
 
 var vfFSTmp string
